@@ -579,6 +579,58 @@ theorem inv_delGlyph (P : Params V) (T : Tables) (hcov : Coverage T = true) (w :
       ({ w with glyphs := mapAllComps w.glyphs (setWatch (watchesBase name) Watch.layer) } : World V) _ name g
       hinv hdom hg rfl rfl rfl rfl rfl rfl rfl rfl
 
+/-! ### rename -/
+
+theorem applyDeliv_append (T : Tables) (w : World V) (a b : List (Obj × String)) :
+    applyDeliv T (applyDeliv T w a) b = applyDeliv T w (a ++ b) := by
+  unfold applyDeliv; rw [List.foldl_append]
+
+theorem switchDs_congr (T : Tables) {w w' : World V} (hg : w'.glyphs = w.glyphs) (hf : w'.fuel = w.fuel)
+    (sel : CompS → Bool) (nw : Watch) (cb : String) : switchDs T w' sel nw cb = switchDs T w sel nw cb := by
+  unfold switchDs; rw [hg, hf]
+
+/-- where the host of an object is after `old` was re-keyed to `new` (its record keeps `pred`) -/
+theorem host_after_rename (gs : Layer) (hn : (AL.keys gs).Nodup) (old new : String) (g g1 : GlyphS)
+    (hg : AL.get? gs old = some g) (habs : AL.get? gs new = none) (pred : GlyphS → Bool) (hp : pred g1 = pred g)
+    (huniq : ∀ q, q ∈ gs → pred q.2 = true → pred g = true → q.1 = old) :
+    ((AL.set (eraseAll gs old) new g1).find? fun p => pred p.2) =
+      (gs.find? fun p => pred p.2).map fun p => if p.1 = old then (new, g1) else p := by
+  have habs' : AL.get? (eraseAll gs old) new = none := by
+    rw [get?_eraseAll]
+    by_cases e : old = new
+    · simp [e]
+    · simp [e, habs]
+  rw [set_absent _ _ _ habs', List.find?_append]
+  rcases host_after_erase gs hn old g hg pred with ⟨h1, h2⟩ | ⟨p, h1, h2, h3⟩ | h4
+  · rw [h1, h2]
+    have : pred g = false := by
+      cases hpg : pred g with
+      | false => rfl
+      | true =>
+        have := List.find?_eq_none.mp h1 (old, g) (AL.mem_of_get? hg)
+        simp [hpg] at this
+    simp [hp, this]
+  · rw [h1, h3]; simp [h2]
+  · -- the record of `old` satisfies pred: nothing else does
+    have hnone : (eraseAll gs old).find? (fun p => pred p.2) = none := by
+      rw [List.find?_eq_none]
+      intro q hq hpq
+      unfold eraseAll at hq
+      have hq' := List.mem_filter.mp hq
+      have := huniq q hq'.1 hpq h4
+      simp [this] at hq'
+    have hfound : ∃ p, gs.find? (fun p => pred p.2) = some p ∧ p.1 = old := by
+      cases hf : gs.find? (fun p => pred p.2) with
+      | none =>
+        have := List.find?_eq_none.mp hf (old, g) (AL.mem_of_get? hg)
+        simp [h4] at this
+      | some p =>
+        have hpp : pred p.2 = true := by simpa using List.find?_some hf
+        exact ⟨p, rfl, huniq p (List.mem_of_find?_eq_some hf) hpp h4⟩
+    obtain ⟨p, hf, hpo⟩ := hfound
+    rw [hnone, hf]
+    simp [hp, h4, hpo]
+
 /-- `Layer.newGlyph` on an absent name -/
 theorem inv_newGlyph (P : Params V) (T : Tables) (hcov : Coverage T = true) (w : World V) (name : String)
     (hinv : Inv P T w) (hdom : Dom w) (hdom' : Dom (doNewGlyph T w name).1) : Inv P T (doNewGlyph T w name).1 := by
